@@ -88,7 +88,25 @@ def items(G):
         yield G.nat("Tx", nm, call_arg(T, "Tx.sig_hash_bip341", "int_to_little_endian", k, 1, nm))
     yield G.bytes_("Tx", "bip341Epoch", bconst(T, "Tx.sig_hash_bip341", 0, "bip341 epoch byte"))
     yield G.bytes_("Tx", "bip342Ext", bconst(T, "Tx.sig_hash_bip341", 1, "bip342 key_version + codesep_pos"))
-    yield G.nat("Tx", "annexTag", lambda: G.cmp(W, "Witness.has_annex", 0, "Eq"))
+    def annex_cmp(op):
+        def f():
+            cs = [c for c in G.compares(W, "Witness.has_annex") if c[0] == op and isinstance(c[1], int)]
+            if not cs:
+                _unlocated(f"Witness.has_annex: no {op} comparison")
+            return cs[0][1], cs[0][2]
+        return f
+    yield G.nat("Tx", "annexTag", annex_cmp("Eq"))
+
+    # has_annex: least number of witness elements (`len(self.items) >= 2`; F05f).  The bare truthiness test
+    # `len(self.items) and …` of the unrepaired code is reported as 1.
+    def annex_min():
+        cs = [c for c in G.compares(W, "Witness.has_annex") if c[0] in ("GtE", "Gt") and isinstance(c[1], int)]
+        fn = G.node(W, "Witness.has_annex")
+        if not cs:
+            return 1, f"{W}:{fn.lineno}"
+        op, v, loc, _ = cs[0]
+        return (v if op == "GtE" else v + 1), loc
+    yield G.nat("Tx", "annexMinItems", annex_min)
     yield G.bytes_("Tx", "tapSighashTag", bconst(PH, "hash_tapsighash", 0, "TapSighash tag"))
     yield G.bytes_("Tx", "tapLeafTag", bconst(PH, "hash_tapleaf", 0, "TapLeaf tag"))
 
